@@ -9,6 +9,8 @@
 (* acceptance, so TLC writes no counterexample files).                                                                *)
 EXTENDS MapAbs, Json, IOUtils
 
+CONSTANT MatchIters    \* FALSE: second pass over a rejected log - only the ordered-map part (results, contents of both tables) has to match;
+                       \*        tells a breach of the ordered-map semantics from a mere difference in what an iterator shows
 VARIABLE l
 TraceLog == ndJsonDeserialize(IOEnv.TRACE)
 N == Len(TraceLog)
@@ -18,7 +20,7 @@ To   == IF "TO" \in DOMAIN IOEnv THEN atoi(IOEnv.TO) ELSE N
 TraceInit == Init /\ l = From /\ TLCSet(1, 0)
 
 Matches(rec, ln) == /\ rec.res = ln.res /\ rec.keys = ln.keys /\ rec.vals = ln.vals /\ rec.okeys = ln.okeys /\ rec.ovals = ln.ovals
-                    /\ \A i \in ItIds : rec.it[i].h = ln.it[i].h /\ rec.it[i].k = ln.it[i].k /\ rec.it[i].v = ln.it[i].v
+                    /\ MatchIters => \A i \in ItIds : rec.it[i].h = ln.it[i].h /\ rec.it[i].k = ln.it[i].k /\ rec.it[i].v = ln.it[i].v
 
 TCall == /\ l <= To /\ TraceLog[l].op # "Reset"
          /\ LET ln == TraceLog[l]
